@@ -224,6 +224,147 @@ def state_body(tr, stmts, state, fields_w, calls, indent="  "):
     return "\n".join(indent + ln for ln in state_lines(tr, stmts, state, fields_w, calls, [0]))
 
 
+
+# ---- C18: lock coverage of PosPriorityQueue, primitives used by the deque helpers ------------
+
+def _touches(node, attr="_pq"):
+    for n in ast.walk(node):
+        if isinstance(n, ast.Attribute) and n.attr == attr and isinstance(n.value, ast.Name) and n.value.id == "self":
+            return True
+    return False
+
+
+def _is_lock_with(stmt):
+    return isinstance(stmt, ast.With) and any(
+        isinstance(i.context_expr, ast.Attribute) and i.context_expr.attr == "_lock" for i in stmt.items)
+
+
+def _unlocked_touch(stmts, helpers):
+    """statements (outside `with self._lock`) that touch self._pq or call an internal helper"""
+    bad = []
+    for st in stmts:
+        if _is_lock_with(st):
+            continue
+        if isinstance(st, (ast.If, ast.For, ast.While, ast.Try, ast.With)):
+            # look inside compound statements
+            inner = []
+            for field in ("body", "orelse", "finalbody"):
+                inner += getattr(st, field, []) or []
+            for hnd in getattr(st, "handlers", []) or []:
+                inner += hnd.body
+            hdr = [getattr(st, "test", None), getattr(st, "iter", None)]
+            if any(h is not None and (_touches(h) or _calls_helper(h, helpers)) for h in hdr):
+                bad.append(st)
+            bad += _unlocked_touch(inner, helpers)
+        elif _touches(st) or _calls_helper(st, helpers):
+            bad.append(st)
+    return bad
+
+
+def _calls_helper(node, helpers):
+    for n in ast.walk(node):
+        if isinstance(n, ast.Call) and isinstance(n.func, ast.Attribute) and isinstance(n.func.value, ast.Name) \
+                and n.func.value.id == "self" and n.func.attr in helpers:
+            return True
+    return False
+
+
+def lock_coverage(prio_tree):
+    """status per method of PosPriorityQueue:
+       0 does not touch the heap; 1 every heap access is under `with self._lock`;
+       2 internal helper, only ever called under the lock; 3 a single atomic read (len/bool);
+       5 constructor; 4 UNPROTECTED"""
+    cls = next(n for n in ast.walk(prio_tree) if isinstance(n, ast.ClassDef) and n.name == "PosPriorityQueue")
+    methods = [n for n in cls.body if isinstance(n, ast.FunctionDef)]
+    # candidates for internal helpers: methods that touch _pq without any lock of their own
+    helpers = set()
+    changed = True
+    while changed:
+        changed = False
+        for m in methods:
+            if m.name in helpers or m.name.startswith("__"):
+                continue
+            body = body_no_doc(m)
+            if (_touches(m) or _calls_helper(m, helpers)) and not any(_is_lock_with(st) for st in ast.walk(m)):
+                # a helper only if every call site in the class is under the lock or in another helper
+                ok = True
+                for other in methods:
+                    if other is m:
+                        continue
+                    if _calls_helper(other, {m.name}):
+                        if other.name in helpers:
+                            continue
+                        if _calls_in_unlocked(body_no_doc(other), m.name):
+                            ok = False
+                if ok and any(_calls_helper(o, {m.name}) for o in methods if o is not m):
+                    helpers.add(m.name)
+                    changed = True
+    out = []
+    for m in methods:
+        body = body_no_doc(m)
+        if m.name == "__init__":
+            st = 5
+        elif m.name in helpers:
+            st = 2
+        elif not _touches(m) and not _calls_helper(m, helpers):
+            st = 0
+        elif len(body) == 1 and isinstance(body[0], ast.Return) and isinstance(body[0].value, ast.Call) \
+                and isinstance(body[0].value.func, ast.Name) and body[0].value.func.id in ("len", "bool"):
+            st = 3
+        elif not _unlocked_touch([b for b in body if not isinstance(b, ast.Assert)], helpers):
+            st = 1
+        else:
+            st = 4
+        out.append((m.name, st))
+    return out
+
+
+def _calls_in_unlocked(stmts, name):
+    for st in stmts:
+        if _is_lock_with(st):
+            continue
+        if isinstance(st, (ast.If, ast.For, ast.While, ast.Try, ast.With)):
+            inner = []
+            for field in ("body", "orelse", "finalbody"):
+                inner += getattr(st, field, []) or []
+            for hnd in getattr(st, "handlers", []) or []:
+                inner += hnd.body
+            if _calls_in_unlocked(inner, name):
+                return True
+            hdr = [getattr(st, "test", None), getattr(st, "iter", None)]
+            if any(h is not None and _calls_helper(h, {name}) for h in hdr):
+                return True
+        elif _calls_helper(st, {name}):
+            return True
+    return False
+
+
+def deque_primitives(default_tree):
+    """which operations the deque helpers apply to the ready queue (`queue` / `loop._ready`)"""
+    out = []
+    for fname in ("queue_find", "queue_remove", "call_pos"):
+        fn = find_func(default_tree, None, fname)
+        prims = set()
+        for n in ast.walk(fn):
+            if isinstance(n, ast.Call) and isinstance(n.func, ast.Attribute) and isinstance(n.func.value, ast.Name) \
+                    and n.func.value.id == "queue":
+                prims.add(n.func.attr)
+            if isinstance(n, ast.Subscript) and isinstance(n.value, ast.Name) and n.value.id == "queue":
+                prims.add("subscript")
+            if isinstance(n, ast.For) and isinstance(n.iter, ast.Name) and n.iter.id == "queue":
+                prims.add("iterate-live")
+            if isinstance(n, ast.Call) and isinstance(n.func, ast.Name) and n.func.id in ("reversed", "enumerate") \
+                    and n.args and isinstance(n.args[0], ast.Name) and n.args[0].id == "queue":
+                prims.add("iterate-live")
+            if isinstance(n, ast.Call) and isinstance(n.func, ast.Name) and n.func.id == "deque_pop":
+                prims.add("deque_pop")
+            if isinstance(n, ast.Call) and isinstance(n.func, ast.Name) and n.func.id in ("list", "tuple") \
+                    and n.args and isinstance(n.args[0], ast.Name) and n.args[0].id == "queue":
+                prims.add("snapshot")
+        out.append((fname, sorted(prims)))
+    return out
+
+
 # ---- the whitelist ---------------------------------------------------------------------------
 
 def generate(src: Path) -> dict:
@@ -298,6 +439,22 @@ def updateCounters (s : Ctr) (inserted : Bool) : Ctr :=
 {state_body(Tr(ctr_fields, {fn4.args.args[1].arg: ("inserted", "bool")}, self_var="s"), body_no_doc(fn4)[0].orelse, "s", {"n_inserted": "nIns", "n_removed": "nRem", "last_maintenance": "lastMaint"}, {"do_maintenance": "maint"}, "    ")}
 end Asynkit.Gen
 """
+    dflt = ast.parse((src / "asynkit/loop/default.py").read_text())
+    cov = lock_coverage(prio)
+    prims = deque_primitives(dflt)
+    lean_str = lambda x: '"' + x + '"'
+    files["LockCoverage.lean"] = (
+        "-- GENERATED by translator/py2lean.py from src/asynkit/experimental/priority.py and loop/default.py — do not edit\n"
+        "namespace Asynkit.Gen\n"
+        "/-- per method of `PosPriorityQueue`: 0 does not touch the heap, 1 every heap access is under\n"
+        "    `with self._lock`, 2 internal helper only called under the lock, 3 single atomic read,\n"
+        "    5 constructor, 4 UNPROTECTED -/\n"
+        "def lockCoverage : List (String × Nat) :=\n  ["
+        + ", ".join(f"({lean_str(n)}, {st})" for n, st in cov) + "]\n\n"
+        "/-- operations the deque helpers of loop/default.py apply to the ready queue -/\n"
+        "def dequePrimitives : List (String × List String) :=\n  ["
+        + ", ".join(f"({lean_str(n)}, [" + ", ".join(lean_str(p) for p in ps) + "])" for n, ps in prims) + "]\n"
+        "end Asynkit.Gen\n")
     top = body_no_doc(fn4)
     if len(top) != 1 or not isinstance(top[0], ast.If) or not isinstance(top[0].test, ast.Name):
         raise Unsupported("update_counters is no longer `if inserted: ... else: ...`")
